@@ -288,6 +288,13 @@ package node
 //@   ensures[standing] n.standing()
 //@   call processSigPool assume[separate-blocks] hg.StoredBlocksSeparate(n.core.hg.Store)
 
+// Init without the bootstrap option (a fresh or in-memory store) keeps the standing invariants that NewNode
+// established; with bootstrap, Hashgraph.Bootstrap replays the database and is outside.
+//@ func (n *Node) Init() error
+//@   safety on
+//@   requires n.standing() && !n.conf.Bootstrap && n.trans != nil
+//@   ensures[standing] n.standing()
+
 //@ func (n *Node) Suspend()
 //@   trusted state transition and routine shutdown (concurrency) not verified
 //@   requires n != nil
